@@ -400,6 +400,49 @@ theorem observation_within_model_bounds (evs : List TEvent) (hw : wellTimed H P 
     obsNotEarly (period P) tol arr = true ∧ obsCountOk (period P) tol fin arr = true :=
   RV.Exchange.Timed.observation_within_model_bounds H P evs hw c hc arr fin tol hlen harr hfin
 
+/-- T6'. The same for a LOSSY observer: UDP may lose datagrams, and a peer that goes away (`vanish`, `deaf`)
+    sees a prefix only.  `ws` is any subsequence of the writes (what reached the observer, in order), `arr`
+    the instants at which it was seen.  The i-th observed datagram is write number ≥ i, hence not before
+    `i·d`; fewer observations than writes: both predicates of the driver still hold. -/
+theorem observation_within_model_bounds_lossy (evs : List TEvent) (hw : wellTimed H P evs = true)
+    (c : Nat) (hc : c ≤ (treach H P evs).t0) (ws : List (Nat × Nat)) (arr : List Nat) (fin tol : Nat)
+    (hsub : ws.Sublist (treach H P evs).writes)
+    (hlen : arr.length = ws.length)
+    (harr : ∀ i (h1 : i < arr.length) (h2 : i < ws.length), (ws[i]).1 ≤ c + arr[i])
+    (hfin : (treach H P evs).now ≤ c + fin) :
+    obsNotEarly (period P) tol arr = true ∧ obsCountOk (period P) tol fin arr = true :=
+  RV.Exchange.Timed.observation_within_model_bounds_lossy H P evs hw c hc ws arr fin tol hsub hlen harr hfin
+
+/-- … with the observer given as a strictly increasing index map (observation `i` is write number `f i`). -/
+theorem observation_within_model_bounds_lossy_idx (evs : List TEvent) (hw : wellTimed H P evs = true)
+    (c : Nat) (hc : c ≤ (treach H P evs).t0) (arr : List Nat) (f : Nat → Nat) (fin tol : Nat)
+    (hmono : ∀ i j, i < j → j < arr.length → f i < f j)
+    (hrange : ∀ i, i < arr.length → f i < (treach H P evs).writes.length)
+    (harr : ∀ i (h1 : i < arr.length) (h2 : f i < (treach H P evs).writes.length),
+      ((treach H P evs).writes[f i]).1 ≤ c + arr[i])
+    (hfin : (treach H P evs).now ≤ c + fin) :
+    obsNotEarly (period P) tol arr = true ∧ obsCountOk (period P) tol fin arr = true :=
+  RV.Exchange.Timed.observation_within_model_bounds_lossy_idx H P evs hw c hc arr f fin tol hmono hrange harr hfin
+
+/-- T7. The LOWER bound on an observation — what would be asserted on a quiet machine; a theorem only, the
+    driver does not evaluate `obsCountGe` (a loaded sandbox does not meet the latency hypothesis; a ticker
+    that is merely slower than `Retry` is caught by the regenerated fact `tickerPeriodIsRetry`,
+    Facts/TieC08.lean).  Under the hypotheses of T4, a LOSSLESS observer whose estimate `t0'` of the first
+    write is not before it (e.g. the first arrival) and who looks at `c + fin ≤ T` has seen at least
+    `1 + (fin - t0' - L) / d` datagrams. -/
+theorem observation_lower_bound_under_latency (hr : P.retry > 0) (L : Nat) (hL : L < period P)
+    (evs : List TEvent) (hw : wellTimed H P evs = true) (hresp : responsive H P L evs = true)
+    (T : Nat) (hset : settled P L (treach H P evs) T = true)
+    (hwait : (treach H P evs).logic.phase = .waiting)
+    (halive : (treach H P evs).logic.helperAlive = true)
+    (c t0' fin : Nat) (arr : List Nat)
+    (hlen : arr.length = (treach H P evs).writes.length)
+    (ht0 : (treach H P evs).t0 ≤ c + t0')
+    (hfin : c + fin ≤ T) :
+    obsCountGe (period P) L t0' fin arr = true :=
+  RV.Exchange.Timed.observation_lower_bound_under_latency H P hr L hL evs hw hresp T hset hwait halive
+    c t0' fin arr hlen ht0 hfin
+
 /-! ### Non-vacuity of the timed layer (interval 5, toy hash, evaluated by the kernel) -/
 section timed_examples
 
@@ -462,6 +505,17 @@ example : erase lateRun = [.dialOk, .tick, .tick] := by decide +kernel
 example : obsNotEarly 5 0 [0, 5, 11, 15] = true ∧ obsCountOk 5 0 15 [0, 5, 11, 15] = true := by decide
 example : obsNotEarly 5 0 [0, 5, 9] = false ∧ obsNotEarly 5 1 [0, 5, 9] = true := by decide
 example : obsCountOk 5 0 14 [0, 5, 11, 14] = false := by decide
+
+/-- a lossy observer of `punctualRun` (clock origin 10 = t0): the second write (at 16) is lost; what it saw
+    of the others — at 10, 22, 25, i.e. 0, 12, 15 on its clock — is a subsequence of the writes, each seen
+    not before it happened, and satisfies the driver's predicates with no allowance (T6') -/
+example : [(10, 0), (22, 2), (25, 3)].Sublist (treach toyH (P1 5 0) punctualRun).writes ∧
+    obsNotEarly 5 0 [0, 12, 15] = true ∧ obsCountOk 5 0 15 [0, 12, 15] = true := by decide +kernel
+/-- … whereas an observer that sees the third datagram before 2·d after losing nothing is refused -/
+example : obsNotEarly 5 0 [0, 6, 9] = false := by decide
+/-- the lower bound on numbers (T7): `punctualRun` seen without loss at 29 with latency 2 — 1 + (29-10-2)/5 = 4
+    datagrams are demanded and 4 were seen; one fewer is refused -/
+example : obsCountGe 5 2 10 29 [10, 16, 22, 25] = true ∧ obsCountGe 5 2 10 29 [10, 16, 22] = false := by decide
 
 end timed_examples
 end RV.C08
